@@ -125,4 +125,70 @@ theorem bound_poll_fixed {cfg : Cfg σ} {c : Cache σ} (htok : ∀ k v, cfg.tok 
   simp only [List.length_append, List.length_map] at hlen
   omega
 
+/-! ### the bounds with only those buffered messages counted whose key is resident
+
+(what the multi-thread "remove vs re-insert" oracle of the harness uses at quiescence: after a maintenance pass only
+no-op notifications of never-inserted keys are buffered) -/
+
+/-- the keys of the buffered messages that are resident -/
+def bufferedResident (c : Cache σ) : List Nat := (c.wbuf.map msgKey).filter (fun k => (sGet c.core.st k).isSome)
+
+theorem mem_bufferedResident {c : Cache σ} {m : WMsg} {v : Nat} (hm : m ∈ c.wbuf) (hk : sGet c.core.st (msgKey m) = some v) :
+    msgKey m ∈ bufferedResident c := by
+  simp only [bufferedResident, List.mem_filter, List.mem_map]
+  exact ⟨⟨m, hm, rfl⟩, by simp [hk]⟩
+
+theorem bufferedResident_nil {c : Cache σ} (hw : ∀ m, m ∈ c.wbuf → sGet c.core.st (msgKey m) = none) :
+    bufferedResident c = [] := by
+  simp only [bufferedResident, List.filter_eq_nil_iff, List.mem_map]
+  rintro k ⟨m, hm, rfl⟩
+  simp [hw m hm]
+
+/-- `Notify`, protocol followed -/
+theorem bound_notify_quiet {cfg : Cfg σ} {c : Cache σ} (htok : ∀ k v, cfg.tok k v = k) (hi : Inv cfg c)
+    (hn : NInv c.pins c.wbuf c.core.lru) :
+    c.core.st.length ≤ cfg.windowCap + cfg.mainLimit + pinnedNow cfg c.pins c.core.st + (bufferedResident c).length := by
+  have hlen := length_le_pinned_add cfg c.pins c.core.st
+    (c.core.lru.window ++ c.core.lru.probation ++ c.core.lru.prot ++ bufferedResident c)
+    hi.core.nodup (by
+      intro k v hk hp
+      have hp' : k ∉ c.pins := by
+        intro hm; rw [htok] at hp; simp [hm] at hp
+      simp only [List.mem_append]
+      rcases resident_tracked hi hk with h | h | h | h | h
+      · exact Or.inl (Or.inl (Or.inl h))
+      · exact Or.inl (Or.inl (Or.inr h))
+      · exact Or.inl (Or.inr h)
+      · rcases hn k h with h1 | h1
+        · exact absurd h1 hp'
+        · exact Or.inr (mem_bufferedResident (m := .unpinned k) h1 hk)
+      · exact Or.inr (mem_bufferedResident (m := .insert k) h hk))
+  have := hi.core.caps.win; have := hi.core.caps.main
+  simp only [List.length_append] at hlen
+  omega
+
+/-- `Poll`, whole-region trim -/
+theorem bound_poll_quiet {cfg : Cfg σ} {c : Cache σ} (htok : ∀ k v, cfg.tok k v = k) (hi : Inv cfg c)
+    (hn : PInv c.pins c.rel c.core.lru) :
+    c.core.st.length ≤ cfg.windowCap + cfg.mainLimit + pinnedNow cfg c.pins c.core.st + (bufferedResident c).length
+      + c.rel.length := by
+  have hlen := length_le_pinned_add cfg c.pins c.core.st
+    (c.core.lru.window ++ c.core.lru.probation ++ c.core.lru.prot ++ bufferedResident c ++ c.rel)
+    hi.core.nodup (by
+      intro k v hk hp
+      have hp' : k ∉ c.pins := by
+        intro hm; rw [htok] at hp; simp [hm] at hp
+      simp only [List.mem_append]
+      rcases resident_tracked hi hk with h | h | h | h | h
+      · exact Or.inl (Or.inl (Or.inl (Or.inl h)))
+      · exact Or.inl (Or.inl (Or.inl (Or.inr h)))
+      · exact Or.inl (Or.inl (Or.inr h))
+      · rcases hn k h with h1 | h1
+        · exact absurd h1 hp'
+        · exact Or.inr h1
+      · exact Or.inl (Or.inr (mem_bufferedResident (m := .insert k) h hk)))
+  have := hi.core.caps.win; have := hi.core.caps.main
+  simp only [List.length_append] at hlen
+  omega
+
 end QbiceVerif.TinyLfu
